@@ -15,6 +15,10 @@ mod c17;
 mod c19;
 mod c20;
 mod eval;
+mod fc;
+mod fcmon;
+mod fcprops;
+mod pkg;
 mod r#gen;
 mod walkmon;
 
@@ -26,6 +30,23 @@ fn main() {
   if args.len() < 3 {
     eprintln!("usage: dgv <ID> quick|thorough");
     std::process::exit(64);
+  }
+  if args[1] == "fccustom" {
+    println!("== direct: export * as ns ==");
+    fc::debug_custom(
+      &[("/mod.ts", "export * as ns from \"./x.ts\";\n"), ("/x.ts", "export default interface Foo { a: number }\nexport const named: number = 1;\n")],
+      &[(".", "./mod.ts")],
+    );
+    println!("== through export * ==");
+    fc::debug_custom(
+      &[("/mod.ts", "export * from \"./u.ts\";\n"), ("/u.ts", "export * as ns from \"./x.ts\";\n"), ("/x.ts", "export default interface Foo { a: number }\nexport const named: number = 1;\n")],
+      &[(".", "./mod.ts")],
+    );
+    return;
+  }
+  if args[1] == "fcdbg" {
+    fc::debug_print(args[2].parse().unwrap_or(1), args.len() > 3);
+    return;
   }
   if args[1] == "dbg" {
     reg::debug_case();
@@ -54,6 +75,9 @@ fn main() {
     "C06" => c06::run(tier, seed),
     "C07" => reg::run_c07(tier, seed),
     "C08" => c08::run(tier, seed),
+    "C09" => fcprops::run("C09", tier, seed),
+    "C10" => fcprops::run("C10", tier, seed),
+    "C11" => fcprops::run("C11", tier, seed),
     "C13" => c13::run(tier, seed),
     "C14" => c14::run(tier, seed),
     "C15" => c15::run_c15(tier, seed),
